@@ -6,9 +6,10 @@ from nvlib.check import Prop
 from props import c06_extract as T
 
 NSLOT, NOBJ, NVAR, NCALL, NSENT = 10, 4, 4, 4, 4
-NEFUN = 71
-# groups that build a cycle while they run: an error injected in the middle legitimately leaves cyclic garbage
-NO_FAULT = (13, 48)
+NEFUN = 72
+# groups that build a cycle while they run (an error injected in the middle legitimately leaves cyclic garbage) or
+# keep a call_out handle in a local (71: the injected error would leave the call_out pending)
+NO_FAULT = (13, 48, 71)
 
 
 def save_text(v):
@@ -639,7 +640,7 @@ class C06(Prop):
             l = l.rstrip()
             if not l:
                 continue
-            if l.startswith("err ") or l.startswith("caught "):
+            if l.startswith("err ") or l.startswith("caught ") or l.startswith("note "):
                 continue                   # the master's error_handler log: errors are part of the scenarios
             if l.startswith("sanitizer ") and ("heap-use-after-free" in l or "double-free" in l):
                 out.append("uaf")          # ASan stopped the driver: the model's explicit use-after-free outcome
